@@ -20,7 +20,7 @@
   O-REPLY     spawned branch: an `Err` from `dispatch_call_to_iface` reaches completion only through an awaited
               `Connection::reply_dbus_error`; same for the inline path in `dispatch_call`
 
-  O-EXPAND    (thorough tier / ZCHECK_K6=1; fixture crate /verif/fixtures/ifaces, K6) the expansion of
+  O-EXPAND    (fixture crate /verif/fixtures/ifaces, K6) the expansion of
               `#[interface(spawn = false)]` makes `Interface::spawn_tasks_for_methods` return the constant `false`,
               the default expansion returns `true`; the generated `call` / `call_mut` / `get` / `set` code of the
               spawn-less interface spawns or detaches nothing itself; every other generated impl returns a constant
@@ -129,7 +129,7 @@ def run(ctx):
         "nothing; the loop coroutine is spawned only inside get_or_init(object_server_dispatch_task); the chain's functions have "
         "no other callers; Err results are answered through reply_dbus_error on both branches.")
     ctx.not_decided = ("ordering among spawned tasks; fairness of the executor and of the interface RwLock; expansions of "
-                       "`spawn = false` are inspected on the fixture crate of K6 (thorough tier), not on user crates.")
+                       "`spawn = false` are inspected on the fixture crate of K6, not on user crates.")
     f = ctx.facts("K1")
     cf.check_ext_enums(ctx, f, [RESULT, "core::option::Option"])
 
@@ -381,8 +381,7 @@ def expand(ctx):
     from .. import lib_iface as LI
     cfgs = LI.generated_configs(ctx)
     if "K6" not in cfgs:
-        ctx.note("quick tier: the `spawn = false` expansion (O-EXPAND, fixture crate K6) is analysed in the thorough tier "
-                 "or with ZCHECK_K6=1")
+        ctx.note("ZCHECK_K6=0: the `spawn = false` expansion (O-EXPAND, fixture crate K6) was not analysed")
         return
     its = LI.interfaces(ctx, cfgs)
     seen = {}
